@@ -30,7 +30,8 @@ def judge(case):
     if not e.accepted:
         return {'counts': ['refused'], 'classes': ['refused:' + case.lang]}, []
     fails = []
-    d = tokrel.rel_tok0(e)
+    garbage = (case.origin or {}).get('kind') == 'mutant' and any(ln.count(b'"') % 2 for ln in case.src.split(b'\n') if b"'\"'" not in ln)
+    d = None if garbage else tokrel.rel_tok0(e)      # a line-level mutant that breaks a quoted string is garbage to every lexer
     if d:
         fails.append(('tok0-code', d))
     d = tokrel.rel_preout(e)
@@ -38,7 +39,7 @@ def judge(case):
         fails.append(('preout-chars', d))
     d, lin, lout = tokrel.rel_clex_code(e)
     counts = []
-    if lin is not None and (case.origin or {}).get('kind') == 'mutant' and any(t[0] == 'other' and t[1] in ('"', "'") for t in lin):
+    if lin is not None and (garbage or ((case.origin or {}).get('kind') == 'mutant' and any(t[0] == 'other' and t[1] in ('"', "'") for t in lin))):
         # a mutant with an unterminated quote: the two lexers may segment the garbage differently and neither is "right"
         d, lin = None, None
     if case.lang in corpus.CFAMILY:
